@@ -116,8 +116,16 @@ class State:
         s.tags = dict(self.tags)
         if "ghosts" in s.tags:
             s.tags["ghosts"] = dict(s.tags["ghosts"])
+        if "named" in s.tags:
+            s.tags["named"] = dict(s.tags["named"])
         s.ghost = self.ghost
         return s
+
+    def name_hyp(self, label, b):
+        """remember an assumed / proved fact under a label (lemma obligations may cite it)"""
+        if isinstance(b, bool):
+            return
+        self.tags.setdefault("named", {})[label] = V.bool_term(b)
 
     def assume(self, b):
         if isinstance(b, bool):
@@ -328,6 +336,20 @@ class Engine:
         if n:
             name = f"{name}#{n}"
         hyps = state.hyps()
+        lf = getattr(self, "lemma_from", None)
+        if lf and kind in ("lemma", "post"):
+            dotted = lambda n_: "." + n_.replace(":", ".") + "."
+            cite = next((v for k_, v in lf.items() if dotted(k_) in dotted(label)), None)
+            if cite is not None:
+                # proof by explicit citation: only the named facts (a subset of the hypotheses: sound)
+                named = state.tags.get("named", {})
+                sel = []
+                for c_ in cite:
+                    hits = [t for n_, t in named.items() if dotted(c_) in dotted(n_)]
+                    sel.extend(hits)
+                meta["full_hyps"] = hyps
+                hyps = list(state.facts) + sel  # facts: axiom instances of the uninterpreted functions
+                meta["cited"] = list(cite)
         hidden = []
         for (u_, _n, _k), (_f, _rk, ax, reveal) in getattr(self, "opaque_fns", {}).items():
             if u_ == self.unit:
@@ -337,10 +359,13 @@ class Engine:
                     hidden.append(ax)
         if hidden:
             meta["hidden_axioms"] = hidden
+        if "full_hyps" in meta:
+            meta["full_hyps"] = meta["full_hyps"] + [a_ for a_ in hyps if a_.get_id() not in {h_.get_id() for h_ in meta["full_hyps"]}]
         ob = Obligation(name, kind, hyps, g, meta)
         self.obligations.append(ob)
         if not z3.is_false(g):
             state.pc.append(g)  # assert, then assume (a literal False is never assumed)
+            state.tags.setdefault("named", {})[label] = g
         return ob
 
     def add_decided(self, kind, label, status, backend, time_s=0.0, detail=None, model=None):
